@@ -41,7 +41,7 @@ def geometry(rng, kind=None, want=None):
         table = [t for t in table if t[0] in want]
     return rng.choice(table)
 
-def build_image(rng, geo, populate=1, free_left=None, dirty_free=0, second_partition=False, full_root=False, big_dir=False, exact_dir=False, ensure_big=False, blank_label=None):
+def build_image(rng, geo, populate=1, free_left=None, dirty_free=0, second_partition=False, full_root=False, big_dir=False, exact_dir=False, ensure_big=False, blank_label=None, stale_tail=False):
     """returns (Image, meta) ; meta: tree description for the generators"""
     name, kw = geo
     img = fatimg.Image()
@@ -92,6 +92,19 @@ def build_image(rng, geo, populate=1, free_left=None, dirty_free=0, second_parti
             if kw["fat32"]:
                 while getattr(v.root, "_used", 0) % (16 * v.spc) != 0:
                     v.add_file(v.root, "Q%d.Q" % i, b""); i += 1
+    if stale_tail and populate:
+        # legal but unusual: slots after the end-of-directory marker that were never scrubbed (in later blocks of the
+        # directory's clusters); a reader must not report them
+        for dnode in [meta["dirs"].get("/SUB"), v.root if kw["fat32"] else None]:
+            if dnode is None:
+                continue
+            blocks = v.dir_blocks(dnode)
+            used = getattr(dnode, "_used", 0)
+            first_free_block = used // 16 + 1
+            for bi in range(first_free_block, len(blocks)):
+                b = v.blk(blocks[bi])
+                for o in range(0, 512, 32):
+                    b[o:o + 32] = v.entry_bytes(fatimg.sfn11("GHOST%d.OLD" % (o // 32)), 0x20, 0, 0)
     if full_root and not kw["fat32"]:
         used = getattr(v.root, "_used", 0)
         for i in range(v.root_entries - used):
